@@ -376,7 +376,7 @@ func driveVSSIDs(rc *RunCtx) {
 	}
 	q := g.Order()
 	n, t := sc.Int("n", 3), sc.Int("t", 1)
-	ids := idKeys(idRand("bad", n, sc.Run), "small", n, q, 0)
+	ids := idKeys(idRand("bad", n, sc.Run), "small", n, q, 1000) // distinct from the old committee's ids (1, 2)
 	switch sc.Str("bad", "q") {
 	case "q":
 		ids[n-1] = new(big.Int).Set(q)
